@@ -82,7 +82,8 @@ def showWorld (w : World) : String :=
     "M " ++ showList showMarket w.markets,
     "K " ++ showList showClient w.clients,
     "Q " ++ showQueue w.queue,
-    "E " ++ showList showEv w.out]
+    -- (the warning for a close of an unknown market is a log line, not an observable event)
+    "E " ++ showList showEv (w.out.filter fun e => match e with | .warnNoMarket _ => false | _ => true)]
 
 def parseRunner? (s : String) : Option Runner :=
   match s.splitOn "~" with
